@@ -396,6 +396,9 @@ func genRegCase(rng *rand.Rand) *regCase {
 					st.Arg = []string{"PUT", "delete", "TRACE"}[rng.Intn(3)]
 				}
 			}
+			if st.Method == "GET" && st.Arg == "" && i%4 == 3 {
+				st.Method = getWithAutoHead // (no draw of its own: the rest of the history is what it was before)
+			}
 		}
 		if rt != nil {
 			prior = append(prior, rt)
@@ -406,7 +409,7 @@ func genRegCase(rng *rand.Rand) *regCase {
 }
 
 func runC08(r *core.Run) {
-	r.Rule("registration histories of 1-12 steps over a per-history segment pool: 2/3 well-formed derivations (all four kinds, optional/empty final segment, root, respelled blanks), 1/3 one-mutation ill-formed (one mutator per rejection category of the statement + byte edits + segments outside the four kinds); tree level (route.AddRoute) and Flame level (all nine methods, lower-case, `*`, unknown); modes restart/continue. Oracle: Accept() of the reference model applied to the accepted history per method; after the history every form of every accepted route is instantiated and must be dispatched as the model says (reachable subject only to priority); structural invariants via hook after every step. non-trivial = distinct histories in which a step's verdict depends on an earlier step (duplicate, short-form duplicate, occupied match-all position)")
+	r.Rule("registration histories of 1-12 steps over a per-history segment pool: 2/3 well-formed derivations (all four kinds, optional/empty final segment, root, respelled blanks), 1/3 one-mutation ill-formed (one mutator per rejection category of the statement + byte edits + segments outside the four kinds); tree level (route.AddRoute) and Flame level (all nine methods, lower-case, `*`, unknown; Get() while AutoHead is on = GET then HEAD); modes restart/continue. Oracle: Accept() of the reference model applied to the accepted history per method; after the history every form of every accepted route is instantiated and must be dispatched as the model says (reachable subject only to priority); structural invariants via hook after every step. non-trivial = distinct histories in which a step's verdict depends on an earlier step (duplicate, short-form duplicate, occupied match-all position)")
 	r.Assume("segments that are none of the four kinds are generated for totality only; their accept/reject verdict is not judged")
 	c08Canaries(r)
 	n := r.N(40000, 4000000)
@@ -421,6 +424,7 @@ func runC08(r *core.Run) {
 	}
 	r.GateCounter("rejected-both:unknown method", 50)
 	r.GateCounter("declared-through-routes-with-method-argument", 20)
+	r.GateCounter("declared-through-get-with-autohead", 100)
 	r.GateCounter("accepted-both", int64(n))
 	r.GateCounter("reachability-dispatches", int64(n))
 	r.GateCounter("odd-segment-totality", 100)
@@ -514,6 +518,10 @@ func judgeRegCase(w *core.W, c *regCase) {
 			for _, t := range tokens {
 				up := strings.ToUpper(t)
 				switch {
+				case t == getWithAutoHead:
+					// Get() while AutoHead is on registers the route for GET and then for HEAD; a HEAD route that is
+					// already there makes the second registration a duplicate like any other (the GET one stays)
+					methods = append(methods, "GET", "HEAD")
 				case up == "*":
 					methods = append(methods, routerMethods...)
 				case isKnownMethod(up):
@@ -592,6 +600,9 @@ func judgeRegCase(w *core.W, c *regCase) {
 			_, pan = flameRegisterArgs(f, true, st.Method, []string{st.Arg}, txt, i, &hit, &seen)
 		} else if flame {
 			var frt *flamego.Route
+			if st.Method == getWithAutoHead {
+				w.Count("declared-through-get-with-autohead")
+			}
 			frt, pan = flameRegister(f, st.Method, txt, i, &hit, &seen)
 			if pan == nil && st.Hdr && frt != nil {
 				frt.Headers("X-Reach", "^v$")
